@@ -236,7 +236,11 @@ func runHistory(r *ev.Run, w *world, hist []int, states, trans map[string]bool) 
 		names[i] = w.events[h].Name
 	}
 	replay := map[string]any{"world": w.name, "history": names}
-	sess, err, p := echx.OpenSession(w.first, w.keys)
+	mode := 0
+	for _, h := range hist {
+		mode += h
+	}
+	sess, err, p := echx.OpenSessionDebug(w.first, w.keys, mode) // (the debug option of the session varies with the history)
 	if p != nil || err != nil {
 		r.Violation("first-hello-failed:"+w.name, fmt.Sprintf("NewConn on the first hello: err=%v panic=%v", err, p), replay)
 		return
